@@ -92,7 +92,7 @@ add(
 )
 add(
     "C09",
-    "identity walk over loaded IRs generated from reference-dense specs; single-fault injection at message level for each reference kind x wrong target",
+    "identity walk over loaded IRs generated from reference-dense specs; single-fault injection at message level for each reference kind x wrong target, and node positions made to share a UUID",
     "Exploration: quick 5k / thorough 80k cases. Positive: every symbol referent, entry point, edge endpoint (also through the blocks' edge views), expression symbol and AuxData UUID/Offset leaf of the loaded IR must be the very object reached by containment iteration (attached) or a plain uuid.UUID (unattached), and no UUID may be reachable as two objects. Negative: each of the 7 reference kinds is redirected to a missing UUID or to a node of each wrong kind present in the IR; load must raise DeserializationError. Sampling, not proof.",
     "Trusts vlib/spec.py, irbuild.py, auxref.py, the protobuf runtime.",
 )
